@@ -220,8 +220,13 @@ def alloc_vectors(case, leaf):
     return out
 
 
-def sem_opt(case, limit=200000):
-    """Maximum utility over all valid schedules (None when the search is too large)."""
+class _Budget(Exception):
+    pass
+
+
+def sem_opt(case, limit=400000):
+    """Maximum utility over all valid schedules (None when the search needs more
+    than `limit` search nodes)."""
     ls = leaves(case["tree"])
     ch = [(path, n) for path, n in ls if n["t"] == "choose"]
     qty = {p["id"]: p["qty"] for p in case["parts"]}
@@ -240,12 +245,14 @@ def sem_opt(case, limit=200000):
         o = alloc_vectors(case, n) if eligible(case, n) else []
         opts.append(o)
         space *= len(o) + 1
-    if space > limit:
-        return None
     best = [0]
     placed = {}
+    calls = [0]
 
     def go(i):
+        calls[0] += 1
+        if calls[0] > limit:
+            raise _Budget()
         if i == len(ch):
             ev = evaluate(case, placed)
             if not ev.problems and ev.utility > best[0]:
@@ -274,5 +281,8 @@ def sem_opt(case, limit=200000):
                 for t in range(n["start"], n["start"] + n["dur"]):
                     use[(pid, t)] -= q
 
-    go(0)
+    try:
+        go(0)
+    except _Budget:
+        return None
     return best[0]
